@@ -186,6 +186,10 @@ async def _do_op(world, driver, rec, hooks):
     k = op["kind"]
     if k == "send":
         cmd = cmds.mk_cmd(op["cmd"])
+        if op.get("same_object"):
+            # the application keeps one command instance and sends it again and again
+            cache = world.__dict__.setdefault("_cmd_objects", {})
+            cmd = cache.setdefault(tuple(op["cmd"]), cmd)
         kw = {}
         if "exceptions" in op and op["exceptions"] is not None:
             kw["exceptions"] = op["exceptions"]
@@ -275,13 +279,19 @@ async def _caller(world, driver, c, recs, hooks):
                 if op.get("timeout_us") is not None:
                     coro = asyncio.wait_for(coro, op["timeout_us"] / 1e6)
                 t = asyncio.get_running_loop().create_task(coro, name="op-" + unit)
-            if op.get("cancel_after_us") is not None:
+            if op.get("cancel_after_us") is not None or op.get("cancel_at_event") is not None:
                 def _cancel(t=t, rec=rec):
                     if not t.done():
                         rec.cancel_requested = True
                         world.fault("caller-cancel")
                         t.cancel()
-                world.loop.at(world.loop.time() + op["cancel_after_us"] / 1e6, _cancel)
+                if op.get("cancel_at_event") is not None:
+                    if world.log.triggers is None:
+                        world.log.triggers = {}
+                    world.log.triggers.setdefault(len(world.log) + op["cancel_at_event"], []).append(
+                        lambda _c=_cancel: (world.probe("cancel-hooked-to-an-event"), world.loop.call_soon(_c)))
+                else:
+                    world.loop.at(world.loop.time() + op["cancel_after_us"] / 1e6, _cancel)
             hooks.get("_op_task", lambda *a: None)(rec, t)
             try:
                 rec.result = await t
